@@ -7,8 +7,9 @@ sys.path.insert(0, os.path.join(os.path.dirname(os.path.dirname(os.path.abspath(
 import frrparse as fp
 
 CLOSURE = ["Model/FrrAst.v", "Model/FrrRender.v", "Model/FrrSem.v", "Model/FrrSpec.v", "Proofs/FrrSortP.v", "Proofs/FrrP.v", "Proofs/FrrListsP.v",
-           "Proofs/FrrShapeP.v", "Proofs/FrrSemP.v", "Proofs/FrrOutP.v", "Proofs/FrrExactP.v", "Proofs/FrrWfP.v", "Proofs/FrrAdvPermP.v"]
-COQ_FILES = ["Corr/Run_Frr.v"]
+           "Proofs/FrrShapeP.v", "Proofs/FrrSemP.v", "Proofs/FrrOutP.v", "Proofs/FrrExactP.v", "Proofs/FrrWfP.v", "Proofs/FrrAdvPermP.v",
+           "Model/FrrK8s.v", "Model/FrrMgr.v", "Proofs/FrrK8sP.v", "Proofs/FrrMgrP.v"]
+COQ_FILES = ["Corr/Run_Frr.v", "Corr/Run_FrrMgr.v"]
 PKG = "internal/bgp/frr"
 EXTRA_ROUTES = ["203.0.113.0/24", "2001:db8:ffff::/48"]
 COMBOS = [(False, False), (False, True), (True, False), (True, True)]
@@ -181,6 +182,7 @@ def run(ctx):
         if not okrun and not any("does not build" in c for c in ctx.corr_broken):
             ctx.corr_broken.append("harness TestVerifFrr failed: " + log[-1500:])
         terms = []
+        mterms = []
         for c in cases:
             ast = None
             if conflict(c["in"]["sessions"]):
@@ -198,11 +200,28 @@ def run(ctx):
             elif not conflict(c["in"]["sessions"]):
                 ctx.oracle_fail("frr-unexpected-error", "createConfig/templateConfig failed on a session set without conflicting local preferences: %s"
                                 % c["in"]["text"][:200], {"sessions": c["in"]["sessions"]})
-            terms.append(build_term(c, ast))
+            if c.get("kind") == "frr-history" and c["in"].get("ops_coq"):
+                # replayed through the model of the session manager (Model/FrrMgr.v) instead
+                obs = "None" if not c["in"]["text"] else "(Some %s)" % fp.cfrr(ast)
+                mterms.append("(MFrr %d%%N %s %s %s)" % (c["id"], c["in"]["ops_coq"], c["in"]["oks_coq"], obs))
+            else:
+                terms.append(build_term(c, ast))
         mism = []
         if check_coq and terms and ok:
-            mism = ctx.coq_cases("Run_Frr", "fcase", terms, shard=40, header="Open Scope string_scope.")
+            import concurrent.futures
+            with concurrent.futures.ThreadPoolExecutor(max_workers=2) as ex:
+                f1 = ex.submit(ctx.coq_cases, "Run_Frr", "fcase", terms, None, 40, "Open Scope string_scope.")
+                f2 = ex.submit(ctx.coq_cases, "Run_FrrMgr", "mcase", mterms, None, 20, "Open Scope string_scope.") if mterms else None
+                mism = f1.result()
+                mm = f2.result() if f2 else []
+            state["replayed"] = state.get("replayed", 0) + len(mterms)
             byid = {c["id"]: c for c in cases}
+            for m in mm[:3]:
+                c = byid.get(m // 10, {})
+                ctx.corr_broken.append("history %d replayed through Model/FrrMgr.v: %s\nhistory: %s" % (
+                    m // 10, {1: "per-operation results differ", 2: "the last configuration handed on differs from the model's"}.get(m % 10, "?"),
+                    json.dumps((c.get("in") or {}).get("history"))[:1500]))
+            mism = mism + mm
             seen = set()
             outside = [m for m in mism if m % 10 == 9]
             state["outside_wf"] = state.get("outside_wf", 0) + len(outside)
@@ -238,6 +257,7 @@ def run(ctx):
     ctx.cov["correspondence"] = {"cases": len(cases), "parsed_texts": state["parsed"], "mismatches": len(mism),
                                  "oracle_evaluations(neighbor x route x semantic parameters)": state["evals"],
                                  "cases_outside_wf_sessions_or_route_ok(premises of C14_frr_out_exact, decided in Coq)": state.get("outside_wf", 0),
+                                 "histories_replayed_through_FrrMgr_model": state.get("replayed", 0),
                                  "golden_files_parsed": gold_ok, "golden_files_rejected(expected: invalid/extras)": gold_bad,
                                  "generator_counters": st}
     ctx.trusted += [
